@@ -28,6 +28,7 @@ import (
 func init() {
 	scen.Register("c15", func() scen.Scenario { return &S{} })
 	scen.Register("c14c", func() scen.Scenario { return &S{hashMode: true} })
+	scen.Register("c13m", func() scen.Scenario { return &S{mgrMode: true} })
 }
 
 // registrar is the scripted registry (the existing tars.Registrar seam).
@@ -94,6 +95,14 @@ type S struct {
 	checkMs  int
 	finished bool
 	hashMode bool
+	mgrMode  bool // C13 at manager level: the registry's list changes while calls select endpoints
+	regLog   []regEvent
+	refreshMs int
+}
+
+type regEvent struct {
+	t    time.Duration
+	list []string
 }
 
 func (s *S) Prepare(c *scen.Ctx) { world.PrepareProcess() }
@@ -127,7 +136,11 @@ func (s *S) Run(c *scen.Ctx) {
 		n.addr = fmt.Sprintf("%s:%d", n.host, n.port)
 		// timeline: a few fault phases aligned around the thresholds of the property
 		t := time.Duration(0)
-		for k := 0; k < simrt.Draw(4, "c15.nphases"); k++ {
+		nph := simrt.Draw(4, "c15.nphases")
+		if s.mgrMode && simrt.Draw(3, "c13m.faults") != 0 {
+			nph = 0 // mostly healthy servers: the registry is what changes
+		}
+		for k := 0; k < nph; k++ {
 			t += time.Duration(1+simrt.Draw(40, "c15.gap")) * time.Second
 			d := []time.Duration{2 * time.Second, 4 * time.Second, 6 * time.Second, 12 * time.Second, 33 * time.Second, 45 * time.Second, 70 * time.Second, 100 * time.Second}[simrt.Draw(8, "c15.dur")]
 			mode := []string{"silent", "refusing", "silent", "flaky"}[simrt.Draw(4, "c15.mode")]
@@ -146,7 +159,12 @@ func (s *S) Run(c *scen.Ctx) {
 	c.Describe("call_timeout_ms", s.timeout)
 	c.Describe("status_check_ms", s.checkMs)
 	c.Describe("run_length", runLen.String())
-	comm := world.NewClient(world.ClientOpts{InvokeTimeoutMs: s.timeout, CheckStatusMs: s.checkMs, RefreshMs: 60000, DialTimeout: 200 * time.Millisecond}, tars.Registrar(s.reg))
+	s.refreshMs = 60000
+	if s.mgrMode {
+		s.refreshMs = []int{1000, 2000, 700}[simrt.Draw(3, "c13m.refresh")]
+		c.Describe("registry_refresh_ms", s.refreshMs)
+	}
+	comm := world.NewClient(world.ClientOpts{InvokeTimeoutMs: s.timeout, CheckStatusMs: s.checkMs, RefreshMs: s.refreshMs, DialTimeout: 200 * time.Millisecond}, tars.Registrar(s.reg))
 	for _, n := range s.nodes {
 		n := n
 		n.mode = "healthy"
@@ -182,6 +200,34 @@ func (s *S) Run(c *scen.Ctx) {
 					simnet.SetRefuse(n.addr, false)
 				}
 				simrt.Event("%s healthy again", n.addr)
+			}
+		})
+	}
+	s.logRegistry()
+	if s.mgrMode {
+		// the registry's answer changes over time: endpoints leave and join
+		nev := 2 + simrt.Draw(10, "c13m.events")
+		simrt.GoNamed("registry", func() {
+			for i := 0; i < nev; i++ {
+				simrt.Sleep(time.Duration(2+simrt.Draw(25, "c13m.gap"))*time.Second + 3*time.Millisecond)
+				k := simrt.Draw(len(s.nodes), "c13m.which")
+				n := s.nodes[k]
+				s.reg.mu.Lock()
+				idx := -1
+				for j, e := range s.reg.active {
+					if e.Host == n.host {
+						idx = j
+					}
+				}
+				if idx >= 0 && len(s.reg.active) > 1 {
+					s.reg.active = append(s.reg.active[:idx:idx], s.reg.active[idx+1:]...)
+					c.Count("fault.registry_removes_endpoint", 1)
+				} else if idx < 0 {
+					s.reg.active = append(s.reg.active, endpointf.EndpointF{Host: n.host, Port: int32(n.port), Timeout: 3000, Istcp: 1, Weight: 100})
+					c.Count("fault.registry_adds_endpoint", 1)
+				}
+				s.reg.mu.Unlock()
+				s.logRegistry()
 			}
 		})
 	}
@@ -250,7 +296,24 @@ func (s *S) propID() string {
 	if s.hashMode {
 		return "C14"
 	}
+	if s.mgrMode {
+		return "C13"
+	}
 	return "C15"
+}
+
+func (s *S) logRegistry() {
+	s.reg.mu.Lock()
+	var l []string
+	for _, e := range s.reg.active {
+		l = append(l, e.Host)
+	}
+	s.reg.mu.Unlock()
+	sort.Strings(l)
+	s.mu.Lock()
+	s.regLog = append(s.regLog, regEvent{simrt.Elapsed(), l})
+	s.mu.Unlock()
+	simrt.Event("registry now lists %v", l)
 }
 
 func (s *S) activeNow() []string {
@@ -342,6 +405,9 @@ func (s *S) Check(c *scen.Ctx, res *simrt.Result) {
 		}
 	}
 	for _, n := range s.nodes {
+		if s.mgrMode {
+			break // the registry takes endpoints out of rotation here: the failover rules are C15's business
+		}
 		failsSince, streak := 0, 0
 		var streakStart time.Duration
 		wasIn := true
@@ -432,6 +498,9 @@ func (s *S) Check(c *scen.Ctx, res *simrt.Result) {
 	// bounded liveness once faults stop: an endpoint whose server has been healthy for 75s
 	// (two probe periods and slack) while calls keep flowing must be back in rotation
 	for _, n := range s.nodes {
+		if s.mgrMode {
+			break
+		}
 		healthyFrom := time.Duration(0)
 		for _, p := range n.phases {
 			if p.to > healthyFrom {
@@ -454,6 +523,9 @@ func (s *S) Check(c *scen.Ctx, res *simrt.Result) {
 				c.Fail(s.propID(), "never-reinstated", "checkStatus", "endpoint %s has been healthy since %v; %d calls were made in the following 75s and it still is not back in rotation at %v (it is not being probed)", n.host, healthyFrom, calls, lastObs)
 			}
 		}
+	}
+	if s.mgrMode {
+		s.checkManager(c)
 	}
 	c.Count("probe.calls", len(s.calls))
 	if s.hashMode {
@@ -556,4 +628,77 @@ func sameSet(a, b []string) bool {
 		}
 	}
 	return true
+}
+
+// checkManager (C13 at manager level): calls only go to endpoints the registry listed
+// recently, and over an unchanged, healthy N-endpoint rotation any N consecutive calls hit
+// each endpoint exactly once.
+func (s *S) checkManager(c *scen.Ctx) {
+	lag := time.Duration(s.refreshMs)*time.Millisecond + 1500*time.Millisecond
+	listedDuring := func(host string, from, to time.Duration) bool {
+		for i, e := range s.regLog {
+			end := time.Duration(1<<62 - 1)
+			if i+1 < len(s.regLog) {
+				end = s.regLog[i+1].t
+			}
+			if e.t <= to && end >= from && has(e.list, host) {
+				return true
+			}
+		}
+		return false
+	}
+	for _, cr := range s.calls {
+		if cr.host == "" {
+			continue
+		}
+		if !has(cr.activeAt, cr.host) {
+			// outside the rotation at selection time: a health probe (C15), possibly one that was
+			// queued before the registry dropped the endpoint; not a selection by a strategy
+			c.Count("probe.manager_call_outside_rotation", 1)
+			continue
+		}
+		if !listedDuring(cr.host, cr.t0-lag, cr.t1) {
+			c.Fail("C13", "not-a-member", "endpointManager", "call %d at %v went to %s, which the registry had not listed for %v (refresh interval %dms); registry history: %v", cr.k, cr.t0, cr.host, lag, s.refreshMs, s.regLog)
+			return
+		}
+	}
+	// strict rotation over unchanged stretches
+	stableFrom := func(t time.Duration) time.Duration { // last registry change before t
+		var last time.Duration
+		for _, e := range s.regLog {
+			if e.t <= t {
+				last = e.t
+			}
+		}
+		return last
+	}
+	for i := 0; i < len(s.calls); i++ {
+		set := s.calls[i].activeAt
+		n := len(set)
+		if n < 2 || i+n > len(s.calls) {
+			continue
+		}
+		ok := true
+		seen := map[string]int{}
+		for j := i; j < i+n; j++ {
+			cr := s.calls[j]
+			if !sameSet(cr.activeAt, set) || !sameSet(cr.activeT1, set) || cr.host == "" || !has(set, cr.host) {
+				ok = false
+				break
+			}
+			seen[cr.host]++
+		}
+		// the rotation must not have been rebuilt inside the window (a refresh that sees a
+		// changed list rebuilds the selectors and restarts the cursor at a random position)
+		if !ok || stableFrom(s.calls[i+n-1].t1)+lag > s.calls[i].t0 {
+			continue
+		}
+		c.Count("probe.rotation_windows_checked", 1)
+		for _, h := range set {
+			if seen[h] != 1 {
+				c.Fail("C13", "rotation", "endpointManager", "calls %d..%d: %d consecutive calls over the unchanged rotation %v hit %s %d times (%v)", s.calls[i].k, s.calls[i+n-1].k, n, set, h, seen[h], seen)
+				return
+			}
+		}
+	}
 }
